@@ -389,7 +389,8 @@ def _first_write_flags(ctx):
                     break
         q = cls + ".write"
         if guard is None:
-            ctx.undecided("C19-R5", w, rel, q, "first-write guard", "no test of %s found in write()" % (attrs,))
+            # the once-only rule above (header guarded by its flag) reports the missing guard itself
+            ctx.note("C19-R5", w, rel, q, "first-write guard", "no test of %s found in write()" % (attrs,))
             continue
         for a in guard[1]:
             inits = [n for n in walk_no_nested(ctor) if isinstance(n, ast.Assign) and any(dotted(t) == "self." + a for t in n.targets)]
